@@ -378,7 +378,12 @@ def judge_session(case: dict[str, Any], rec: dict[str, Any]) -> dict[str, Any]:
 				d = ev.get('diffs') or [{}]
 				violations.append({'class': 'imported-table-differs', 'detail': ev, 'known': None, 'sig': row_field_diff(d[0]) if d[0] else ''})
 			if not ev['completed']:
-				violations.append({'class': 'not-completed-after-import', 'detail': ev, 'known': None, 'sig': 'completed'})
+				if res['sizes'].get(ev['m'], 0) == 0:
+					# an export without a single key does not name its module: import_json has nothing to mark (the persistor, which knows
+					# the module, does: fixed finding C14/restored-empty-module-not-completed)
+					bump('probes', 'empty export imported (no key names the module: completion not judged)')
+				else:
+					violations.append({'class': 'not-completed-after-import', 'detail': ev, 'known': None, 'sig': 'completed'})
 		elif ev['op'] == 'import-interrupted':
 			bump('faults_fired', 'import interrupted after some rows')
 			if not ev.get('raised'):
